@@ -186,17 +186,23 @@ def run_semantic(res, sources, opts=None, count=30, extra_case=None, label="prog
         if v.get("unsupported"):
             stats["entity_unsupported"] += 1
         mt = v.get("match") or {}
-        proved = bool(mt.get("all") and mt.get("ranked") and mt.get("roots", 0) > 0 and not v.get("stateful"))
+        # names whose value the kernel-checked validator covers (theorem Facto.scalar_end_to_end): bound scalar outputs
+        pnames = set(mt.get("proved_names") or []) if not v.get("stateful") else set()
+        obs_names = [o for o in (v.get("obs") or []) if not o.endswith(".enable")]
+        proved = bool(pnames) and all(o in pnames for o in obs_names)
         info["proved"] = proved
+        info["proved_names"] = sorted(pnames)
+        stats["proved_outputs"] += len(pnames)
         if proved:
             stats["proved_for_all_inputs"] += 1
             stats["proved_nodes"] += mt.get("bound", 0)
         mms = v.get("mismatches", [])
-        if proved and mms:
+        bad = [m for m in mms if m.get("name") in pnames]
+        if bad:
             # the kernel-checked validator accepted a circuit that the executable semantics refutes: impossible unless
             # the framework itself is inconsistent -- never hide it
             res.violation({"reason": "FRAMEWORK INCONSISTENCY: scalar_end_to_end applies but the search found a disagreement",
-                           "source": c["source"], "mismatch": mms[0], "match": mt})
+                           "source": c["source"], "mismatch": bad[0], "match": mt})
         hist = v.get("history") or {}
         hms = hist.get("mismatches", [])
         its = hist.get("iterate", [])
